@@ -140,6 +140,9 @@ func WrapHandler(waf coraza.WAF, h http.Handler) http.Handler {
 			tx.DebugLogger().Error().Err(err).Msg("Failed to process request")
 			return
 		} else if it != nil {
+			if it.Action == "drop" {
+				dropConnection()
+			}
 			setRedirectLocation(w.Header(), it)
 			w.WriteHeader(obtainStatusCodeFromInterruptionOrDefault(it, http.StatusOK))
 			return
@@ -182,4 +185,11 @@ func setRedirectLocation(h http.Header, it *types.Interruption) {
 	if it.Action == "redirect" && it.Data != "" {
 		h.Set("Location", it.Data)
 	}
+}
+
+// dropConnection serves a "drop" interruption: instead of answering, the exchange is aborted
+// and net/http closes the connection (HTTP/1) or resets the stream (HTTP/2). The deferred
+// logging and closing of the transaction still run.
+func dropConnection() {
+	panic(http.ErrAbortHandler)
 }
